@@ -35,3 +35,11 @@ package stdlib_contracts
 //@ func (*Value).Store
 //@ assumed
 //@ pure
+
+//@ package github.com/nspcc-dev/neo-go/pkg/vm/opcode
+//@ func IsValid
+//@ assumed
+//@ pure
+//@ func (Opcode).String
+//@ assumed
+//@ pure
